@@ -193,7 +193,7 @@ def _configs(tier):
     else:
         for si in range(len(SHAPES)):
             shape = SHAPES[si]
-            for wi in ((0, 1, 2) if len(shape) < 3 else (1,)):                 # three streams: 16-bit only (wall-time budget)
+            for wi in ((0, 1, 2) if len(shape) < 2 else (1,)):                 # several streams: 16-bit only (wall-time budget)
                 for ob in range(1 << len(shape)):
                     if len(shape) == 3 and ob not in (0, 2, 5, 7):
                         continue
